@@ -11,7 +11,7 @@ ID = 'C17'
 LEVEL = 'exploration'
 RULE_TEXT = ('(a) for every rule name and every option name in {arithmetic, precision, guard, display, omega, integer_quota, defeat_batch, quota, '
              'zzz} every assignment of {absent, v1, v2} to the ballot-file layer ([droop ...], parsed from text) and the caller layer is enumerated '
-             '(values the rule accepts; this enumeration is complete): the effective value must be forced > caller > file > default, the record must '
+             '(values the rule accepts; this enumeration is complete; caller values are supplied both as Python values and as name=value words through Options.parse, as the command line does): the effective value must be forced > caller > file > default, the record must '
              'report the layers as supplied, the arithmetic class / rule attribute must show the effective value, and the report header must list '
              'undeclared supplied options as unused and replaced ones as overridden. (b) statutory rules are counted with and without random junk '
              'assignments of the same option names (valid and invalid values, bare rule / arithmetic names) from the caller, from [droop ...], or both: '
@@ -87,7 +87,7 @@ def header_list(report, label):
     return None if m is None else m.group(1).split(', ')
 
 
-def check_assignment(ctx, rule, name, fv, cv, base=None):
+def check_assignment(ctx, rule, name, fv, cv, base=None, cli=False):
     "fv / cv: value in the file layer / caller layer or None; base: extra caller options (the arithmetic under which the name is exercised)"
     file_tokens = [as_file_token(name, fv)] if fv is not None else []
     text = PROFILE % ('[droop %s]' % ' '.join(file_tokens) if file_tokens else '')
@@ -95,6 +95,12 @@ def check_assignment(ctx, rule, name, fv, cv, base=None):
     caller.update(base or {})
     if cv is not None:
         caller[name] = cv
+    if cli:
+        # the command-line layer: the same assignment as Droop.py receives it, as name=value words parsed by Options.parse
+        from droop.options import Options
+        words = [as_file_token(k, v) for k, v in caller.items()]
+        caller = Options.parse(words)
+        ctx.count('cli_layer_assignments')
     case = dict(kind='layers', blt=text, options=dict(caller), name=name, rule=rule, base=base)
     ctx.evaluated()
     run = do_count(text, dict(caller), budget=5.0, render=True)
@@ -133,7 +139,7 @@ def check_assignment(ctx, rule, name, fv, cv, base=None):
     if rec is None:
         ctx.violation('precedence:record-missing', 'record has no options entry', case)
         return
-    want_cmd = dict(caller)
+    want_cmd = {k: (int(v) if isinstance(v, str) and v.isdigit() else v) for k, v in caller.items()}
     want_file = {name: fv} if fv is not None else {}
     if rec['cmd'] != want_cmd:
         ctx.violation('precedence:record-cmd-layer', 'record cmd layer %r, supplied %r' % (rec['cmd'], want_cmd), case)
@@ -273,6 +279,8 @@ def shard(ctx):
     for i, (rule, name, fv, cv, base) in enumerate(allas):
         if i % ctx.nshards == ctx.shard:
             check_assignment(ctx, rule, name, fv, cv, base)
+            if cv is not None:
+                check_assignment(ctx, rule, name, fv, cv, base, cli=True)
     ctx.count('assignment_enumeration_complete_shards')
     n_min = 20 if ctx.quick else 300
     for i, rng in ctx.cases(n_min, 10 ** 9):
